@@ -136,3 +136,34 @@ UNITS.append(Unit('exp.dtor', (EXP + '~CdnsExporter', None), contract=DT_C, prel
                   args=['&obj'], props=['C02', 'C10', 'C13'],
                   note='destruction closes the block array with exactly one stop code iff a header was written (the "+1" of C10); '
                        'no output failure in this unit (the destructor cannot report one)'))
+
+# ---------------------------------------------------------------- buffer_qr / buffer_aec / buffer_mm  (C12)
+MAXI = '$this->m_block.m_block_parameters.storage_parameters.max_block_items'
+NOTFULL = '($this->m_block.m_query_responses.n < (MAXI_ == 0 ? 1UL : MAXI_) && $this->m_block.m_address_event_counts.n < (MAXI_ == 0 ? 1UL : MAXI_) && $this->m_block.m_malformed_messages.n < (MAXI_ == 0 ? 1UL : MAXI_))'.replace('MAXI_', MAXI)
+FULLB = '((B)->m_query_responses.n >= (B)->m_block_parameters.storage_parameters.max_block_items || (B)->m_address_event_counts.n >= (B)->m_block_parameters.storage_parameters.max_block_items || (B)->m_malformed_messages.n >= (B)->m_block_parameters.storage_parameters.max_block_items)'
+# the add_* functions seen through their contracts (add.* units): exactly one array grows by at most one, nothing else of the view changes, result = full()
+ADD_STUB = lambda arr: ('  if (g_exc) return 0;\n  if (nondet_bool()) { __CPROVER_assume($P0->%s.n < (1UL << 55)); $P0->%s.n++; }\n'
+                        '  if (nondet_bool()) { $P0->m_block_statistics.has = 1; }\n  return ' % (arr, arr) + FULLB.replace('(B)', '$P0') + ';')
+BUF_C = '''
+__CPROVER_requires(__CPROVER_w_ok($this, sizeof(*$this)) && g_exc == 0)
+__CPROVER_requires(''' + INV2 + ''' && ''' + BOUNDS + ''' && ''' + NOTFULL + ''')
+__CPROVER_assigns(''' + GASSIGN + ''', $this->m_blocks_written, seq_BlockParameters__cur, __CPROVER_object_whole(&$this->m_block))
+__CPROVER_ensures(g_exc == 0 || g_exc == EXC_CborOutputException)
+__CPROVER_ensures(g_exc == 0 ==> (''' + INV2 + ''' && ''' + NOTFULL + '''))
+__CPROVER_ensures(g_exc == 0 ==> (($ret != 0) == ($this->m_blocks_written == @W0 + 1)))
+__CPROVER_ensures(g_exc == 0 ==> ($this->m_blocks_written == @W0 || $this->m_blocks_written == @W0 + 1))
+__CPROVER_ensures(g_exc == 0 ==> $ret == g_bytes - @B0)
+__CPROVER_ensures((g_exc == 0 && $this->m_blocks_written == @W0) ==> (%(arr)s.n == @X0 || %(arr)s.n == @X0 + 1 || (@N0 == 0 && %(arr)s.n == 0)))
+'''
+for nm, fn, arr in [('buffer_qr', 'add_question_response_record', 'm_query_responses'), ('buffer_aec', 'add_address_event_count', 'm_address_event_counts'),
+                    ('buffer_mm', 'add_malformed_message', 'm_malformed_messages')]:
+    UNITS.append(Unit('exp.' + nm, (EXP + nm, None), contract=BUF_C % {'arr': '$this->m_block.' + arr}, prelude=P, pre_c=PRE2,
+                      defines=DEF + ['ENC_MAY_FAIL'], extern_records=EXT, stubs=BLK_STUBS, replace=['exp.write_block'],
+                      gen_stubs=[(r'^CdnsBlock__%s__\w+$' % fn, ADD_STUB(arr))],
+                      ghost=GH_W + [('unsigned long', 'X0', '$this->m_block.%s.n' % arr)],
+                      setup=EXP_SETUP.replace(');\n', ' && ' + NOTFULL.replace('$this', '(&obj)') + ');\n') + '  static struct Generic%s rec; static struct opt_BlockStatistics st;\n' %
+                      {'buffer_qr': 'QueryResponse', 'buffer_aec': 'AddressEventCount', 'buffer_mm': 'MalformedMessage'}[nm],
+                      args=['&obj', '&rec', '&st'], props=['C12', 'C10', 'C02'], timeout=900,
+                      post='  if (g_exc != 0) { CANARY("output failure reachable"); }',
+                      note='between calls no array has reached max(1, max_block_items); a block is written exactly when the add reports full(); '
+                           'the result is non-zero exactly when a block was written and equals the bytes appended'))
